@@ -313,6 +313,74 @@ type noCloseConn struct{ net.Conn }
 
 func (n *noCloseConn) Close() error { return nil }
 
+// c19SeqCase: a Client that holds an established connection (DialWithContext) is used for DialAndSend. The connection
+// the message travels over must have seen QUIT and be closed when DialAndSend returns - also when the send fails.
+type c19SeqCase struct {
+	RefuseRcpt bool `json:"refuse_rcpt"`
+	Seq        bool `json:"dial_then_dialandsend"`
+}
+
+func runC19Seq(r *ev.Run, c c19SeqCase) {
+	viol := func(key, what string, obs any) {
+		r.Violate(ev.Violation{Key: key, What: what, Case: c, Observed: obs})
+	}
+	farm := &refsmtp.Farm{NewConfig: func(int) *refsmtp.Config {
+		return &refsmtp.Config{AllowUTF8: true, Decide: func(st refsmtp.Step) refsmtp.Action {
+			if c.RefuseRcpt && st.Verb == "RCPT" {
+				return refsmtp.Action{Kind: refsmtp.Reply, Code: 550, Text: "5.1.1 no such user"}
+			}
+			return refsmtp.Action{}
+		}}
+	}}
+	defer farm.Shutdown()
+	cl, err := mail.NewClient(netHost, mail.WithDialContextFunc(farm.Dial), mail.WithTimeout(defaultNetTimeout), mail.WithHELO("client.verif.example"), mail.WithTLSPolicy(mail.NoTLS))
+	if err != nil {
+		r.HarnessError("C19 seq NewClient: " + err.Error())
+		return
+	}
+	ctx, cancel := context.WithTimeout(context.Background(), 10*time.Second)
+	defer cancel()
+	if err := cl.DialWithContext(ctx); err != nil {
+		r.HarnessError("C19 seq dial: " + err.Error())
+		return
+	}
+	msg, _ := simpleMsg("c19s", "m0@sender.example", []string{"r0@rcpt.example"}, "quoted-printable", "body\r\n")
+	var dsErr error
+	hung, _ := withWatchdog(20*time.Second, func() { dsErr = cl.DialAndSendWithContext(ctx, msg) }, func() { farm.Shutdown() })
+	if hung {
+		r.Inconclusive("C19 seq: DialAndSend hung")
+		return
+	}
+	sess, conns := farm.Snapshot()
+	closedAtReturn := make([]bool, len(conns))
+	for i, tc := range conns {
+		closedAtReturn[i] = tc.Closed()
+	}
+	_ = cl.Close()
+	farm.Shutdown()
+	r.Count("dial_then_dialandsend_sequences", 1)
+	used := -1
+	for i, s := range sess {
+		cmds, _, _ := s.Snapshot()
+		for _, cr := range cmds {
+			if cr.Verb == "MAIL" {
+				used = i
+			}
+		}
+	}
+	if used < 0 {
+		r.Inconclusive("C19 seq: no connection saw MAIL")
+		return
+	}
+	quit := strings.Contains(sess[used].Transcript(), "QUIT:")
+	if !closedAtReturn[used] {
+		viol(fmt.Sprintf("conn-open-after-dialandsend:established-client:error=%t", dsErr != nil), fmt.Sprintf("DialAndSend on a Client that holds an established connection returned %v; the connection the message went over (#%d of %d) was not closed at that moment (QUIT seen: %t)", dsErr, used, len(conns), quit), sess[used].Transcript())
+	} else if dsErr == nil && !quit {
+		viol("success-without-quit:established-client", "DialAndSend succeeded but the connection it used never saw QUIT", sess[used].Transcript())
+	}
+	r.Eval(fmt.Sprintf("seq|%+v", c), true)
+}
+
 func classifyDialErr(err error) string {
 	s := err.Error()
 	switch {
@@ -375,7 +443,7 @@ func c19Configs(thorough bool) []c19Config {
 
 func runC19(r *ev.Run, rep *ev.ReplayDoc) ev.Summary {
 	sum := ev.Summary{
-		Rule: "execution-tree enumeration over the dial and dial-and-send dialogues: for DialWithContext, DialToSMTPClientWithContext and DialAndSend x TLS policies (none/opportunistic/mandatory, STARTTLS advertised or not, good / wrong-name / untrusted certificate) x auth configurations (PLAIN, LOGIN, wrong password, AUTH missing, mechanism unsupported, refused on unencrypted connection, autodiscover without usable mechanism), the server deviates ({4yz, 5yz, drop, a line that is no SMTP reply}) or the caller's context is cancelled (server answering normally) at up to 1 (quick) / 2 (thorough) positions from the greeting to QUIT. The tracking net.Conn injected through WithDialContextFunc is inspected at the instant the public call returns. Plus implicit TLS through the library's own dialer over loopback TCP against peers the handshake cannot succeed with (clear-text greeting, wrong-name / untrusted certificate, garbage): the peer never closes and watches for the end of the stream. non-trivial = the call failed or a deviation was scripted",
+		Rule: "execution-tree enumeration over the dial and dial-and-send dialogues: for DialWithContext, DialToSMTPClientWithContext and DialAndSend x TLS policies (none/opportunistic/mandatory, STARTTLS advertised or not, good / wrong-name / untrusted certificate) x auth configurations (PLAIN, LOGIN, wrong password, AUTH missing, mechanism unsupported, refused on unencrypted connection, autodiscover without usable mechanism), the server deviates ({4yz, 5yz, drop, a line that is no SMTP reply}) or the caller's context is cancelled (server answering normally) at up to 1 (quick) / 2 (thorough) positions from the greeting to QUIT. The tracking net.Conn injected through WithDialContextFunc is inspected at the instant the public call returns. Plus DialAndSend on a Client that already holds an established connection; plus implicit TLS through the library's own dialer over loopback TCP against peers the handshake cannot succeed with (clear-text greeting, wrong-name / untrusted certificate, garbage): the peer never closes and watches for the end of the stream. non-trivial = the call failed or a deviation was scripted",
 		Assumptions: []string{
 			"closing is synchronous: the conn must be closed when the call returns, no grace period",
 			"only errors returned after the dial function handed out a connection are judged",
@@ -384,6 +452,11 @@ func runC19(r *ev.Run, rep *ev.ReplayDoc) ev.Summary {
 		Exhaustive: true,
 	}
 	if rep != nil {
+		var q c19SeqCase
+		if err := json.Unmarshal(rep.Case, &q); err == nil && q.Seq {
+			runC19Seq(r, q)
+			return sum
+		}
 		var o c19OwnCase
 		if err := json.Unmarshal(rep.Case, &o); err == nil && o.Own {
 			if closed, ran := runC19Own(r, o, 15*time.Second); ran && !closed {
@@ -406,6 +479,10 @@ func runC19(r *ev.Run, rep *ev.ReplayDoc) ev.Summary {
 	n := enumTree(r, cfgs, func(c c19Config) int { return c.MaxDev }, kinds, func(cfg c19Config, script []scriptEntry) int {
 		return runC19Case(r, c19Case{Cfg: cfg, Script: script})
 	})
+	// DialAndSend on a Client that already holds an established connection
+	for _, rr := range []bool{false, true} {
+		runC19Seq(r, c19SeqCase{RefuseRcpt: rr, Seq: true})
+	}
 	// implicit TLS through the library's own tls.Dialer path: the peer watches whether its side sees the end of the stream
 	var own []c19OwnCase
 	for _, via := range []string{"dial", "dialandsend"} {
